@@ -29,6 +29,10 @@ type Connection struct {
 
 	readBuffer io.Reader
 	received   []byte // received bytes which are not decrypted yet
+
+	notifyMutex   sync.Mutex
+	responding    bool     // a request is being handled, the response is not completely written yet
+	notifications [][]byte // notifications which are written after the response
 }
 
 // NewConnection returns a hap connection.
@@ -141,6 +145,40 @@ func (con *Connection) Write(b []byte) (int, error) {
 	}
 
 	return con.connection.Write(b)
+}
+
+// WriteNotification writes an event notification to the connection.
+//
+// A notification must not appear in the middle of a response – a response is written
+// in several parts, the controller would not be able to read it anymore. While a request
+// is handled, notifications are kept and written after the response.
+func (con *Connection) WriteNotification(b []byte) (int, error) {
+	con.notifyMutex.Lock()
+	defer con.notifyMutex.Unlock()
+
+	if con.responding {
+		con.notifications = append(con.notifications, b)
+		return len(b), nil
+	}
+
+	return con.Write(b)
+}
+
+// SetResponding tells the connection that the handling of a request starts (true)
+// or that the response is written completely (false).
+func (con *Connection) SetResponding(responding bool) {
+	con.notifyMutex.Lock()
+	defer con.notifyMutex.Unlock()
+
+	con.responding = responding
+	if responding {
+		return
+	}
+
+	for _, b := range con.notifications {
+		con.Write(b)
+	}
+	con.notifications = nil
 }
 
 // Read reads bytes from the connection. The read bytes are decrypted when possible.
